@@ -195,12 +195,52 @@ def check_equality(entry, r, others, notes):
             continue
         if eq != same_fields:
             fails.append({"class": "== disagrees with equality of (class, arguments, attributes)", "expr": sp.srepr(r)[:1500],
-                          "other": sp.srepr(o)[:1500], "kind": kind, "==": eq, "fields_equal": same_fields})
+                          "other": sp.srepr(o)[:1500], "kind": kind, "==": eq, "hash_equal": heq, "fields_equal": same_fields,
+                          "attributes": _attr_report(entry, r), "other_attributes": _attr_report(entry, o)})
         elif same_fields and not heq:
             fails.append({"class": "equal instances hash differently", "expr": sp.srepr(r)[:1500], "other": sp.srepr(o)[:1500]})
         elif not same_fields and heq:
             fails.append({"class": "different instances hash alike", "expr": sp.srepr(r)[:1500], "other": sp.srepr(o)[:1500], "kind": kind})
     return fails
+
+
+def check_pair_commute(r, o, kind, pools, rng, ctx, stats):
+    """Substitution laws on a SECOND instance that differs from the first one only in a non-SymPy
+    attribute: SymPy caches `subs` by equality, so instances that wrongly compare equal get each
+    other's results."""
+    import sympy as sp
+
+    fails = []
+    sigma = respectful_map(pools, rng, r)
+    if not sigma:
+        return fails
+    k, v = next(iter(sigma.items()))
+    try:
+        first = r.subs(k, v).doit()
+        lhs = o.subs(k, v).doit()
+        rhs = o.doit().subs(k, v).doit()
+        lhs_x = o.xreplace({k: v}).doit()
+    except Exception:  # noqa: BLE001
+        return fails
+    if any(x.has(sp.nan, sp.zoo, sp.oo, -sp.oo) for x in (lhs, rhs, lhs_x)):
+        return fails
+    stats["pair_commute"] = stats.get("pair_commute", 0) + 1
+    for how, left in (("subs", lhs), ("xreplace", lhs_x)):
+        if same_value(left, rhs, ctx) is False:
+            fails.append({"class": f"{how} then unfold != unfold then {how}", "expr": sp.srepr(o)[:1500], "instance": str(o)[:300],
+                          "map": {str(k): str(v)}, "after_the_same_substitution_on": str(r)[:300], "difference_to_that_instance": kind,
+                          "subst_then_doit": str(left)[:300], "doit_then_subst": str(rhs)[:300],
+                          "first_instance_result": str(first)[:300]})
+            break
+    return fails
+
+
+def _attr_report(entry, obj) -> dict:
+    out = {}
+    for f in entry.attr_fields:
+        v = getattr(obj, f.name)
+        out[f.name] = f"{type(v).__name__} {getattr(v, '__module__', '')}.{getattr(v, '__qualname__', repr(v))} id={id(v)}" if callable(v) else repr(v)
+    return out
 
 
 def _field_equal(a, b) -> bool:
